@@ -342,6 +342,12 @@ def agent_user_for(level, user=USER, auth_pw=AUTH_PW, priv_pw=PRIV_PW,
     return agent_mod.User(name, (hashname, auth_pw))
 
 
+def lenient():
+    """The lenient walk mode as a caller may well pass it: a string EQUAL to "warn" that
+    is not the interned constant (read from a config file, lower-cased, decoded ...)."""
+    return "".join(("wa", "rn"))
+
+
 def initial_credentials(via, community="public", cred_kwargs=None):
     """Credentials a client starts its life with before it is switched to the intended
     ones.  via = (how, level[, "same"]): with "same" everything the two families can
